@@ -33,6 +33,23 @@ typedef GenericDocument<DNode<SimpleAllocator>> FreeDoc;
 typedef GenericDocument<DNode<TrackingAllocator>> TrackDoc;
 typedef GenericDocument<DNode<MemoryPoolAllocator<SimpleAllocator, AdaptiveChunkPolicy>>> AdaptDoc;
 
+// a document bound to a pool that works inside a caller-supplied buffer: a heap block of exactly offset+size bytes (ASan sees
+// the first byte beyond it), the buffer starting `offset` bytes into it (0..7: aligned or not)
+static size_t g_ub_size = 1024, g_ub_off = 0;
+struct UbHolder {
+  std::unique_ptr<char[]> mem;
+  MemoryPoolAllocator<> pool;
+  UbHolder() : mem(new char[g_ub_size + g_ub_off]), pool(mem.get() + g_ub_off, g_ub_size) {}
+};
+struct UserBufDoc : private UbHolder, public Document {
+  UserBufDoc() : UbHolder(), Document(&this->pool) {}
+  UserBufDoc(UserBufDoc&& o) : UbHolder(), Document(std::move(static_cast<Document&>(o))) {}
+  UserBufDoc& operator=(UserBufDoc&& o) {
+    Document::operator=(std::move(static_cast<Document&>(o)));
+    return *this;
+  }
+};
+
 struct Out {
   bool ok = false;
   int code = 0;
@@ -160,6 +177,7 @@ static void run_all(const std::string& text, const std::string& valid, const MV&
                         " bytes) still allocated after the document was destroyed"};
         break;
       }
+      case 4: o = run_history<UserBufDoc>(hist, text, valid, valid_mv); break;
       default: o = run_history<AdaptDoc>(hist, text, valid, valid_mv); break;
     }
 #if !defined(VF_ASAN)
@@ -172,6 +190,7 @@ static void run_all(const std::string& text, const std::string& valid, const MV&
         case 0: o2 = run_history<PoolDoc>(hist, text, valid, valid_mv); break;
         case 1: o2 = run_history<FreeDoc>(hist, text, valid, valid_mv); break;
         case 2: ledger().reset(); o2 = run_history<TrackDoc>(hist, text, valid, valid_mv); break;
+        case 4: o2 = run_history<UserBufDoc>(hist, text, valid, valid_mv); break;
         default: o2 = run_history<AdaptDoc>(hist, text, valid, valid_mv); break;
       }
       mallopt(M_PERTURB, 0);
@@ -252,19 +271,32 @@ static void property(Src& s, Case& c) {
     MV v = gen_value(s, go);
     text = render(s, v, lay);
     what = "valid";
+    if (s.coin(1, 10)) {  // maximally dense text: the parser's node stack (sized from the text length) is filled to the brim
+      text = dense_text(s);
+      what = "valid-dense";
+      c.cls("base:dense");
+    }
     if (mode == 1) {
       what = mutate_text(s, text);
       if (s.coin(1, 6)) what += "+" + mutate_text(s, text);
     }
   }
-  int kind = (int)s.weighted({3, 3, 3, 1});
+  int kind = (int)s.weighted({3, 3, 3, 1, 2});
   int hist = (int)s.index(7);
+  if (kind == 4) {
+    static const size_t sizes[] = {64, 128, 256, 512, 1024, 4096};
+    g_ub_size = s.coin(1, 2) ? sizes[s.index(6)] : (size_t)s.pick(64, 2048);
+    g_ub_off = s.coin(1, 4) ? 0 : (size_t)s.pick(1, 7);
+    c.note("ubsize", std::to_string(g_ub_size));
+    c.note("uboff", std::to_string(g_ub_off));
+    if (g_ub_off) c.cls("user-buffer:misaligned");
+  }
   c.note("text", text);
   c.note("valid", valid);
   c.note("kind", std::to_string(kind));
   c.note("hist", std::to_string(hist));
   refjson::Result r = refjson::parse(text);
-  static const char* kn[] = {"pool", "freeing", "tracking", "adaptive-pool"};
+  static const char* kn[] = {"pool", "freeing", "tracking", "adaptive-pool", "pool-in-user-buffer"};
   c.cls(std::string("alloc:") + kn[kind]);
   c.cls("history:" + std::to_string(hist));
   c.cls(r.ok ? "valid" : std::string("invalid@depth") + (r.depth_at_fault == 0 ? "0" : r.depth_at_fault < 4 ? "1-3" : "4+"));
@@ -290,7 +322,10 @@ static void direct(const Fields& f, Case& c) {
   if (!rv.ok) c.fail("ORACLE-SELF-CHECK: companion text is not valid");
   int kind = field(f, "kind") ? atoi(field(f, "kind")->c_str()) : -1;
   int hist = field(f, "hist") ? atoi(field(f, "hist")->c_str()) : -1;
-  for (int k = 0; k < 4; k++)
+  g_ub_size = field(f, "ubsize") ? (size_t)atol(field(f, "ubsize")->c_str()) : 1024;
+  g_ub_off = field(f, "uboff") ? (size_t)atol(field(f, "uboff")->c_str()) % 8 : 3;
+  if (g_ub_size < 64) g_ub_size = 64;
+  for (int k = 0; k < 5; k++)
     for (int h = 0; h < 7; h++)
       if ((kind < 0 || kind == k) && (hist < 0 || hist == h)) run_all(*t, valid, rv.value, k, h, c);
 }
